@@ -121,7 +121,8 @@ Representable(para) ==
           /\ LET ls == ValueLines(ValOf(para, para.order[k])) IN
              /\ \A j \in 1..Len(ls) : LineOK(ls[j])
              /\ \A j \in 2..Len(ls) : ls[j] # <<DOT>>          \* " ." means "empty line"
-             /\ (ls[1] = <<>> \/ ls[1][1] \notin SpaceSet)
+             /\ (ls[1] = <<>> \/ ls[1][1] \notin SpaceSet \ BlankSet)    \* (an indented first line is fine: it is
+                                                                    \*  written on the line after the field name)
 \* a value whose first line is empty but which has more lines is written as
 \* "Name:\n line" and read back without the empty line: by the convention above
 \* its line count is not preserved, so equality is not demanded for it
@@ -144,7 +145,9 @@ RefReadsBackAs(bytes, para) ==
             /\ Len(r.paras[1]) = Len(para.order)
             /\ \A k \in 1..Len(para.order) :
                   /\ r.paras[1][k].name = para.order[k]
-                  /\ r.paras[1][k].lines = ValueLines(ValOf(para, para.order[k]))
+                  /\ LET want == ValueLines(ValOf(para, para.order[k])) IN
+                     \/ r.paras[1][k].lines = want
+                     \/ (want[1] # <<>> /\ want[1][1] \in BlankSet /\ r.paras[1][k].lines = <<<<>>>> \o want)
 
 \* ---- RefRender: paragraph model -> bytes (generators) ---------------------
 \* model field = [name, first (bytes), conts (Seq(bytes), already with marker)]
